@@ -326,7 +326,7 @@ pub fn spelling() -> BoxedStrategy<Spelling> {
             select(vec!["", "", " ", "\t "]),
             [select(vec![0u8, 0, 0, 1, 2]), select(vec![0u8, 0, 1]), select(vec![0u8, 0, 3])],
             any::<bool>(),
-            select(vec!["", "", " ", " \t"]),
+            select(vec!["", "", " ", " \t", "\t"]),
         )
             .prop_map(|(lb, v, vb, zeros, hyphenless, tb)| Spelling {
                 lead_blanks: lb.to_string(),
